@@ -63,7 +63,8 @@ def run_check(prop, tier, seed):
     proof_broken = build_broken or aud["discharged"] != aud["obligations"] or bool(aud["problems"])
     new_failures = [f for f in ctx.failures if not f.get("known")]
     violation = bool(new_failures) or bool(ctx.corr_breaks) or proof_broken
-    common.write_evidence(ctx, aud, spec.get("level", "proof"), 1 if violation else 0,
+    level = spec.get("level", "proof" if aud["obligations"] else "exploration")
+    common.write_evidence(ctx, aud, level, 1 if violation else 0,
                           spec.get("trusted_base", []), extra=spec.get("extra_evidence"))
     for k in ctx.known_hits:
         print("KNOWN-FINDING: property=%s %s" % (prop, k))
